@@ -362,6 +362,19 @@ def check_aref(ctx, db):
     sw = [x for x in f.walk() if is_assign(x) and norm(x.child('lhs').text()) in ('columns', 'rows') and 'repetition' in norm(x.child('rhs').text())]
     t = sorted((norm(x.child('lhs').text()), norm(x.child('rhs').text())) for x in sw)
     ctx.check(t == [('columns', 'this->repetition.rows'), ('rows', 'this->repetition.columns')], 'R-DEP', 'Reference::to_gds/swap-counts', f.loc(), 'when the lattice vectors align with the swapped axes both counts are exchanged')
+    # the counts that scale the corners are the counts that are written: inside the branch that swaps them, the swap
+    # comes before every use (same reaching definition at the corner computation and at the COLROW store)
+    stale = []
+    for a in sw:
+        blk = a.parent
+        nm = norm(a.child('lhs').text())
+        if blk is None or blk.k != 'CompoundStmt':
+            stale.append('%s: swap of `%s` is not a statement of the aligned-axes branch' % (a.loc(), nm))
+            continue
+        for s_ in blk.c[:blk.c.index(a)]:
+            if s_ is not None and any(x.k == 'DeclRefExpr' and x.n == nm and x.dk == 'local' for x in s_.walk()):
+                stale.append('%s uses `%s` before it is exchanged at %s, but COLROW is written from the exchanged value' % (s_.loc(), nm, a.loc()))
+    ctx.check(not stale and len(sw) == 2, 'R-DEP', 'Reference::to_gds/swap-before-corners', f.loc(), 'in the swapped branch the counts are exchanged before the lattice corners are computed from them', '; '.join(stale[:2]))
     lim = next((i for i in f.walk() if i.k == 'IfStmt' and 'UINT16_MAX' in i.child('cond').text() or (i.k == 'IfStmt' and '65535' in norm(i.child('cond').text()))), None)
     g = db.fn('gdstk::read_gds')
     rd = [x for x in g.walk() if is_assign(x) and norm(x.child('lhs').text()) in ('repetition->columns', 'repetition->rows')]
@@ -383,10 +396,12 @@ def run(ctx):
     check_units(ctx, db)
     check_offsets(ctx, db)
     check_aref(ctx, db)
+    C03.check_xy_continuation(ctx, db)   # a boundary split over several XY records re-loads completely
+    C03.check_element_buffers(ctx, db)   # one PATH record per element, from a scratch array emptied per element
 
 
 MANIFEST = dict(
-    text='Decides structural necessary conditions of the GDSII round trip: every record kind a writer path can emit has an explicit reader arm; for 27 (element kind, record) pairs the fields the writer\'s payload depends on are the fields the reader assigns on the matching element; the EndType/PATHTYPE tables compose to the identity (Smooth -> Round), STRANS bit 0x8000 and the PRESENTATION nibble agree on both sides; every int32 database value is (int32_t)lround(user x scaling), WIDTH is twice the half-width with the scale_width sign convention handled on both signs, ANGLE is degrees out / radians in, loaded values are factor x int; every repetition offset reaches both coordinates of exactly one emitted element per offset; AREF counts written to COLROW are the variables that scale the lattice corners, both are swapped together, the count range fits the reader\'s accessor, and the reader recovers pitches as (corner - origin) / count. Numeric equality of coordinates and idempotence of repeated cycles are not decided.',
+    text='Decides structural necessary conditions of the GDSII round trip: every record kind a writer path can emit has an explicit reader arm; for 27 (element kind, record) pairs the fields the writer\'s payload depends on are the fields the reader assigns on the matching element; the EndType/PATHTYPE tables compose to the identity (Smooth -> Round), STRANS bit 0x8000 and the PRESENTATION nibble agree on both sides; every int32 database value is (int32_t)lround(user x scaling), WIDTH is twice the half-width with the scale_width sign convention handled on both signs, ANGLE is degrees out / radians in, loaded values are factor x int; every repetition offset reaches both coordinates of exactly one emitted element per offset; AREF counts written to COLROW are the variables that scale the lattice corners, both are swapped together, the count range fits the reader\'s accessor, and the reader recovers pitches as (corner - origin) / count; continuation XY records are appended (BOUNDARY and PATH alike) and the per-element scratch arrays of the PATH writers are emptied for every element. Numeric equality of coordinates and idempotence of repeated cycles are not decided.',
     note='Trusted: clang front end, gx, sa rules, sa/gdsgrammar.py. The correspondence table names struct fields (semantic anchors); a renamed field shows up as a failed pair to be re-confirmed.',
     technique='table extraction on both codec sides + dependence closure for payload expressions + unit/shape rules',
     design='§4 C01')
